@@ -1,6 +1,7 @@
 import NurbsVerif.Lemmas.Affine
 import NurbsVerif.Lemmas.SurfLift
 import NurbsVerif.Model.Transform
+import NurbsVerif.Lemmas.AffineMaps
 
 /-!
 # C10  Translation, rotation and scaling act on the shape as on its points
@@ -55,5 +56,190 @@ theorem translatePt_getD (vec pt : List K) (j : ℕ) (h : pt.length = vec.length
     on the first two coordinates, for ANY numbers `c`, `s` -/
 theorem rotatePt_z (c s x y z : K) : rotatePt 2 c s [x, y, z] = [x * c - y * s, y * c + x * s, z] := by
   simp [rotatePt]
+
+/-! ### assembled statements: any affine map of the coordinates (`AffOn d f A b`: on points with `d`
+    coordinates `f` is `x ↦ A x + b`), applied to the control net the way `Shape.mapPts` does it –
+    `net.map f` for non-rational shapes, `net.map (onCartesian true f)` (divide by the weight, apply `f`,
+    multiply back, keep the weight) for rational ones -/
+
+/-- Non-rational curves: the evaluated point of the mapped net is the map of the evaluated point
+    (all coordinates at once). -/
+theorem transformed_curve_point (p : ℕ) (U : ℕ → K) (P : List (List K)) (k : ℕ) (u : K) (d : ℕ)
+    (h : SpanOk U k u) (hp : p ≤ k) (hk : k < P.length) (hP : NetOk d P)
+    (f : List K → List K) (A : ℕ → ℕ → K) (b : ℕ → K) (hf : AffOn d f A b) :
+    curvePointAt p U (P.map f) k u = f (curvePointAt p U P k u) :=
+  curvePointAt_map_affine p U P k u d h hp hk hP f A b hf
+
+/-- Non-rational surfaces. -/
+theorem transformed_surface_point (pu pv : ℕ) (Uu Uv : ℕ → K) (su sv : ℕ) (P : List (List K)) (ku kv : ℕ) (u v : K) (d : ℕ)
+    (hu : SpanOk Uu ku u) (hv : SpanOk Uv kv v)
+    (hpu : pu ≤ ku) (hpv : pv ≤ kv) (hku : ku < su) (hkv : kv < sv) (hlen : P.length = su * sv) (hP : NetOk d P)
+    (f : List K → List K) (A : ℕ → ℕ → K) (b : ℕ → K) (hf : AffOn d f A b) :
+    surfacePointAt pu pv Uu Uv sv (P.map f) ku kv u v = f (surfacePointAt pu pv Uu Uv sv P ku kv u v) :=
+  surfacePointAt_map_affine pu pv Uu Uv su sv P ku kv u v d hu hv hpu hpv hku hkv hlen hP f A b hf
+
+/-- Non-rational volumes. -/
+theorem transformed_volume_point (pu pv pw : ℕ) (Uu Uv Uw : ℕ → K) (su sv sw : ℕ) (P : List (List K))
+    (ku kv kw : ℕ) (u v w : K) (d : ℕ)
+    (hu : SpanOk Uu ku u) (hv : SpanOk Uv kv v) (hw : SpanOk Uw kw w)
+    (hpu : pu ≤ ku) (hpv : pv ≤ kv) (hpw : pw ≤ kw) (hku : ku < su) (hkv : kv < sv) (hkw : kw < sw)
+    (hlen : P.length = su * sv * sw) (hP : NetOk d P)
+    (f : List K → List K) (A : ℕ → ℕ → K) (b : ℕ → K) (hf : AffOn d f A b) :
+    volumePointAt pu pv pw Uu Uv Uw su sv (P.map f) ku kv kw u v w
+      = f (volumePointAt pu pv pw Uu Uv Uw su sv P ku kv kw u v w) :=
+  volumePointAt_map_affine pu pv pw Uu Uv Uw su sv sw P ku kv kw u v w d hu hv hw hpu hpv hpw hku hkv hkw hlen hP f A b hf
+
+/-- Rational curves (homogeneous points `(x·w, w)`, positive weights): the evaluated weight is
+    unchanged and positive, and the projected point of the transformed net is the map of the projected
+    point of the original net. -/
+theorem transformed_rational_curve_point (p : ℕ) (U : ℕ → K) (P : List (List K)) (k : ℕ) (u : K) (d : ℕ)
+    (h : SpanOk U k u) (hp : p ≤ k) (hk : k < P.length) (hP : NetOk (d+1) P)
+    (hwt : ∀ i, i < P.length → 0 < (ptsGet P i).getD d 0)
+    (f : List K → List K) (A : ℕ → ℕ → K) (b : ℕ → K) (hf : AffOn d f A b) :
+    (curvePointAt p U (P.map (onCartesian true f)) k u).getD d 0 = (curvePointAt p U P k u).getD d 0 ∧
+    0 < (curvePointAt p U P k u).getD d 0 ∧
+    project (curvePointAt p U (P.map (onCartesian true f)) k u) = f (project (curvePointAt p U P k u)) :=
+  curvePointAt_map_affine_rat p U P k u d h hp hk hP hwt f A b hf
+
+/-- Rational surfaces. -/
+theorem transformed_rational_surface_point (pu pv : ℕ) (Uu Uv : ℕ → K) (su sv : ℕ) (P : List (List K)) (ku kv : ℕ) (u v : K) (d : ℕ)
+    (hu : SpanOk Uu ku u) (hv : SpanOk Uv kv v)
+    (hpu : pu ≤ ku) (hpv : pv ≤ kv) (hku : ku < su) (hkv : kv < sv) (hlen : P.length = su * sv) (hP : NetOk (d+1) P)
+    (hwt : ∀ i, i < P.length → 0 < (ptsGet P i).getD d 0)
+    (f : List K → List K) (A : ℕ → ℕ → K) (b : ℕ → K) (hf : AffOn d f A b) :
+    (surfacePointAt pu pv Uu Uv sv (P.map (onCartesian true f)) ku kv u v).getD d 0
+      = (surfacePointAt pu pv Uu Uv sv P ku kv u v).getD d 0 ∧
+    0 < (surfacePointAt pu pv Uu Uv sv P ku kv u v).getD d 0 ∧
+    project (surfacePointAt pu pv Uu Uv sv (P.map (onCartesian true f)) ku kv u v)
+      = f (project (surfacePointAt pu pv Uu Uv sv P ku kv u v)) :=
+  surfacePointAt_map_affine_rat pu pv Uu Uv su sv P ku kv u v d hu hv hpu hpv hku hkv hlen hP hwt f A b hf
+
+/-- Rational volumes. -/
+theorem transformed_rational_volume_point (pu pv pw : ℕ) (Uu Uv Uw : ℕ → K) (su sv sw : ℕ) (P : List (List K))
+    (ku kv kw : ℕ) (u v w : K) (d : ℕ)
+    (hu : SpanOk Uu ku u) (hv : SpanOk Uv kv v) (hw : SpanOk Uw kw w)
+    (hpu : pu ≤ ku) (hpv : pv ≤ kv) (hpw : pw ≤ kw) (hku : ku < su) (hkv : kv < sv) (hkw : kw < sw)
+    (hlen : P.length = su * sv * sw) (hP : NetOk (d+1) P)
+    (hwt : ∀ i, i < P.length → 0 < (ptsGet P i).getD d 0)
+    (f : List K → List K) (A : ℕ → ℕ → K) (b : ℕ → K) (hf : AffOn d f A b) :
+    (volumePointAt pu pv pw Uu Uv Uw su sv (P.map (onCartesian true f)) ku kv kw u v w).getD d 0
+      = (volumePointAt pu pv pw Uu Uv Uw su sv P ku kv kw u v w).getD d 0 ∧
+    0 < (volumePointAt pu pv pw Uu Uv Uw su sv P ku kv kw u v w).getD d 0 ∧
+    project (volumePointAt pu pv pw Uu Uv Uw su sv (P.map (onCartesian true f)) ku kv kw u v w)
+      = f (project (volumePointAt pu pv pw Uu Uv Uw su sv P ku kv kw u v w)) :=
+  volumePointAt_map_affine_rat pu pv pw Uu Uv Uw su sv sw P ku kv kw u v w d hu hv hw hpu hpv hpw hku hkv hkw hlen hP hwt f A b hf
+
+/-- Weights are unchanged by the model's transformation of a rational net, point by point, and the
+    transformed net is again a net of `d+1`-coordinate points. -/
+theorem transformed_net_weights (d : ℕ) (f : List K → List K) (P : List (List K)) (hP : NetOk (d+1) P)
+    (hf : ∀ pt : List K, pt.length = d → (f pt).length = d) :
+    NetOk (d+1) (P.map (onCartesian true f)) ∧
+    ∀ i, i < P.length → (ptsGet (P.map (onCartesian true f)) i).getD d 0 = (ptsGet P i).getD d 0 :=
+  onCartesian_net d f P hP hf
+
+/-- The model's translation is an affine map of the coordinates: identity matrix, offset `vec`. -/
+theorem translate_is_affine (d : ℕ) (vec : List K) (hv : vec.length = d) :
+    AffOn d (translatePt vec) (fun j l => if l = j then 1 else 0) (fun j => vec.getD j 0) :=
+  translatePt_affOn d vec hv
+
+/-- The model's uniform scaling is an affine (linear) map: matrix `m·I`. -/
+theorem scale_is_affine (d : ℕ) (m : K) :
+    AffOn d (scalePt m) (fun j l => if l = j then m else 0) (fun _ => 0) :=
+  scalePt_affOn d m
+
+/-- The model's rotation of 3-D points about coordinate axis `axis` is the linear map with the
+    rotation matrix `rotMat axis c s`, for ANY numbers `c`, `s`. -/
+theorem rotate_is_affine_3d (axis : ℕ) (c s : K) : AffOn 3 (rotatePt axis c s) (rotMat axis c s) (fun _ => 0) :=
+  rotatePt_affOn3 axis c s
+
+/-- 2-D points are always rotated about the z axis. -/
+theorem rotate_is_affine_2d (axis : ℕ) (c s : K) : AffOn 2 (rotatePt axis c s) (rotMat 2 c s) (fun _ => 0) :=
+  rotatePt_affOn2 axis c s
+
+/-- Affine maps compose (so translate-to-origin, rotate, translate-back is one affine map). -/
+theorem affine_maps_compose {d : ℕ} {f g : List K → List K} {A A' : ℕ → ℕ → K} {b b' : ℕ → K}
+    (hf : AffOn d f A b) (hg : AffOn d g A' b') :
+    AffOn d (g ∘ f) (fun j l => ∑ m ∈ range d, A' j m * A m l) (fun j => ∑ m ∈ range d, A' j m * b m + b' j) :=
+  AffOn.comp hf hg
+
+/-- `translate` / `scale` of the model act on the net exactly in the form the theorems above are about
+    (and change nothing else). -/
+theorem translate_scale_net (S : Shape K) (vec : List K) (m : K) :
+    (translate S vec).net = S.net.map (onCartesian S.rat (translatePt vec)) ∧
+    (scale S m).net = S.net.map (onCartesian S.rat (scalePt m)) ∧
+    (translate S vec).kvs = S.kvs ∧ (scale S m).kvs = S.kvs ∧ (translate S vec).rat = S.rat ∧ (scale S m).rat = S.rat :=
+  ⟨rfl, rfl, rfl, rfl, rfl, rfl⟩
+
+/-- The three net transformations of the model's `rotate` on a rational shape with non-zero weights
+    are one transformation by the composed map (translate back ∘ rotate ∘ translate to the origin). -/
+theorem rotate_net_rational (S : Shape K) (axis : ℕ) (c s : K) (d : ℕ) (hrat : S.rat = true)
+    (hP : NetOk (d+1) S.net) (hwt : ∀ pt ∈ S.net, pt.getD d 0 ≠ 0) (ho : (startPoint S).length = d)
+    (hrot : ∀ pt : List K, pt.length = d → (rotatePt axis c s pt).length = d) :
+    (rotate S axis c s).net = S.net.map (onCartesian true
+      (translatePt ((startPoint S).map (fun x => 0 - (0 - x))) ∘ rotatePt axis c s ∘
+        translatePt ((startPoint S).map (fun x => 0 - x)))) :=
+  rotate_net_rat S axis c s d hrat hP hwt ho hrot
+
+/-- The same for non-rational shapes (no hypothesis needed). -/
+theorem rotate_net_nonrational (S : Shape K) (axis : ℕ) (c s : K) (hrat : S.rat = false) :
+    (rotate S axis c s).net = S.net.map
+      (translatePt ((startPoint S).map (fun x => 0 - (0 - x))) ∘ rotatePt axis c s ∘
+        translatePt ((startPoint S).map (fun x => 0 - x))) :=
+  rotate_net_nonrat S axis c s hrat
+
+/-- **`rotate` on a rational volume**, fully assembled: every evaluated (projected) point of the
+    rotated shape is the original point moved by: translate by minus the start point, rotate about the
+    axis, translate back – weights positive, any `c`, `s`. -/
+theorem rotate_rational_volume (S : Shape K) (axis : ℕ) (c s : K)
+    (pu pv pw : ℕ) (Uu Uv Uw : ℕ → K) (su sv sw ku kv kw : ℕ) (u v w : K)
+    (hrat : S.rat = true) (hP : NetOk 4 S.net) (hlen : S.net.length = su * sv * sw)
+    (hwt : ∀ pt ∈ S.net, 0 < pt.getD 3 0) (ho : (startPoint S).length = 3)
+    (hu : SpanOk Uu ku u) (hv : SpanOk Uv kv v) (hw : SpanOk Uw kw w)
+    (hpu : pu ≤ ku) (hpv : pv ≤ kv) (hpw : pw ≤ kw) (hku : ku < su) (hkv : kv < sv) (hkw : kw < sw) :
+    project (volumePointAt pu pv pw Uu Uv Uw su sv (rotate S axis c s).net ku kv kw u v w)
+      = translatePt ((startPoint S).map (fun x => 0 - (0 - x))) (rotatePt axis c s
+          (translatePt ((startPoint S).map (fun x => 0 - x))
+            (project (volumePointAt pu pv pw Uu Uv Uw su sv S.net ku kv kw u v w)))) :=
+  rotate_rational_volume_point S axis c s pu pv pw Uu Uv Uw su sv sw ku kv kw u v w hrat hP hlen hwt ho hu hv hw
+    hpu hpv hpw hku hkv hkw
+
+/-- **`rotate` on a non-rational volume**, fully assembled. -/
+theorem rotate_volume (S : Shape K) (axis : ℕ) (c s : K)
+    (pu pv pw : ℕ) (Uu Uv Uw : ℕ → K) (su sv sw ku kv kw : ℕ) (u v w : K)
+    (hrat : S.rat = false) (hP : NetOk 3 S.net) (hlen : S.net.length = su * sv * sw)
+    (ho : (startPoint S).length = 3)
+    (hu : SpanOk Uu ku u) (hv : SpanOk Uv kv v) (hw : SpanOk Uw kw w)
+    (hpu : pu ≤ ku) (hpv : pv ≤ kv) (hpw : pw ≤ kw) (hku : ku < su) (hkv : kv < sv) (hkw : kw < sw) :
+    volumePointAt pu pv pw Uu Uv Uw su sv (rotate S axis c s).net ku kv kw u v w
+      = translatePt ((startPoint S).map (fun x => 0 - (0 - x))) (rotatePt axis c s
+          (translatePt ((startPoint S).map (fun x => 0 - x))
+            (volumePointAt pu pv pw Uu Uv Uw su sv S.net ku kv kw u v w))) :=
+  rotate_volume_point S axis c s pu pv pw Uu Uv Uw su sv sw ku kv kw u v w hrat hP hlen ho hu hv hw
+    hpu hpv hpw hku hkv hkw
+
+/-- a rational volume: degrees 1,1,1, sizes 2×2×2, homogeneous 3-D points with weights 1,2,1,3,1,2,1,1 -/
+def exVol : Shape ℚ :=
+  { rat := true, degs := [1,1,1], kvs := [[0,0,1,1],[0,0,1,1],[0,0,1,1]], sizes := [2,2,2],
+    net := [[0,0,0,1],[2,0,2,2],[0,1,0,1],[3,3,6,3],[0,0,1,1],[4,0,2,2],[0,2,3,1],[1,1,1,1]] }
+
+/-- non-vacuity of `rotate_rational_volume`: all hypotheses hold for `exVol`, axis 0, `c = 3/5`, `s = 4/5`,
+    parameters `(1/3, 1/4, 1/5)` -/
+example : project (volumePointAt 1 1 1 (fnOf ([0,0,1,1] : List ℚ)) (fnOf ([0,0,1,1] : List ℚ)) (fnOf ([0,0,1,1] : List ℚ)) 2 2
+      (rotate exVol 0 (3/5) (4/5)).net 1 1 1 (1/3) (1/4) (1/5))
+    = translatePt ((startPoint exVol).map (fun x => 0 - (0 - x))) (rotatePt 0 (3/5) (4/5)
+        (translatePt ((startPoint exVol).map (fun x => 0 - x))
+          (project (volumePointAt 1 1 1 (fnOf ([0,0,1,1] : List ℚ)) (fnOf ([0,0,1,1] : List ℚ)) (fnOf ([0,0,1,1] : List ℚ)) 2 2
+            exVol.net 1 1 1 (1/3) (1/4) (1/5))))) := by
+  have hm : Monotone (fnOf ([0,0,1,1] : List ℚ)) := by
+    apply monotone_nat_of_le_succ
+    intro n
+    rcases n with _|_|_|_|n <;> simp [fnOf, List.getD]
+  have hs : ∀ t : ℚ, 0 ≤ t → t ≤ 1 → SpanOk (fnOf ([0,0,1,1] : List ℚ)) 1 t := fun t h0 h1 =>
+    ⟨hm, by simpa [fnOf, List.getD] using h0, by simpa [fnOf, List.getD] using h1, by simp [fnOf, List.getD]⟩
+  refine rotate_rational_volume exVol 0 (3/5) (4/5) 1 1 1 _ _ _ 2 2 2 1 1 1 _ _ _ rfl ?_ rfl ?_ (by decide +kernel)
+    (hs _ (by norm_num) (by norm_num)) (hs _ (by norm_num) (by norm_num)) (hs _ (by norm_num) (by norm_num))
+    (by omega) (by omega) (by omega) (by omega) (by omega) (by omega)
+  · intro pt hpt; simp [exVol] at hpt; rcases hpt with h|h|h|h|h|h|h|h <;> simp [h]
+  · intro pt hpt; simp [exVol] at hpt; rcases hpt with h|h|h|h|h|h|h|h <;> simp [h]
 
 end C10
